@@ -117,3 +117,41 @@ Proof.
   assert (logins * per <= total - io) by (apply Z.mul_div_le; lia).
   repeat split; nia.
 Qed.
+
+Lemma partitions_disjoint_proof total io logins reserved c1 c2 s1 s2 n1 n2 k1 k2 s1' s2' a1 a2 :
+  0 < logins -> io <= total -> 0 <= c1 < c2 -> c2 < logins -> 0 <= reserved ->
+  AInv s1 -> AInv s2 ->
+  (size s1, pos s1 - off s1, off s1) = partition total io logins reserved c1 ->
+  (size s2, pos s2 - off s2, off s2) = partition total io logins reserved c2 ->
+  1 <= n1 -> 1 <= n2 ->
+  alloc s1 n1 k1 = Ok (s1', Some a1) -> alloc s2 n2 k2 = Ok (s2', Some a2) ->
+  io <= a1 /\ a1 + n1 <= a2 /\ a2 + n2 <= total.
+Proof.
+  intros Hl Hio Hc Hc2 Hr A1 A2 E1 E2 Hn1 Hn2 Ea1 Ea2.
+  pose proof (partitions_arith total io logins reserved c1 c2 Hl Hio Hc Hc2) as Hp.
+  rewrite <- E1, <- E2 in Hp. destruct Hp as (H1 & H2 & H3).
+  pose proof (alloc_inside_partition_proof s1 n1 k1 s1' a1 A1 Hn1 Ea1).
+  pose proof (alloc_inside_partition_proof s2 n2 k2 s2' a2 A2 Hn2 Ea2).
+  unfold partition in E1, E2. inversion E1. inversion E2.
+  destruct A1 as [P1 _], A2 as [P2 _]. pose proof (P_pos s1 P1). pose proof (P_pos s2 P2).
+  lia.
+Qed.
+
+(* F1: with the test "i < self.size" (rel = false) and a client offset, coalescing and completeness fail *)
+Lemma absolute_test_breaks_completeness_proof :
+  exists sz p o ops s outs, 0 <= p < sz /\ Forall (wf_op o sz) ops /\
+    (s0 <- init sz p o ;; run false s0 ops) = Ok (s, outs) /\
+    last outs (Some 0) = None /\ ghost ops outs [] = [] /\
+    (forall x, o + p <= x < o + sz -> free_addr s x).
+Proof.
+  exists 4, 0, 8, [OAlloc 3 0; OFree 8; OAlloc 4 0].
+  eexists. eexists. split; [lia|]. split; [repeat constructor; simpl; lia|].
+  split; [vm_compute; reflexivity|]. split; [reflexivity|]. split; [reflexivity|].
+  intros x Hx. unfold free_addr.
+  assert (Hx4 : x = 8 \/ x = 9 \/ x = 10 \/ x = 11) by lia.
+  destruct Hx4 as [E|[E|[E|E]]]; subst x.
+  - exists 8, (mkB 8 3 false). vm_compute. intuition congruence.
+  - exists 8, (mkB 8 3 false). vm_compute. intuition congruence.
+  - exists 8, (mkB 8 3 false). vm_compute. intuition congruence.
+  - exists 11, (mkB 11 1 false). vm_compute. intuition congruence.
+Qed.
